@@ -188,20 +188,6 @@ class W2World(World):
     def end_step(self):
         if self.pending:
             own = [v for v in self.pending if v.prop == self.prop]
-            if not own:
-                # a violation of another property that is a recorded (open) finding does not end this run
-                from .kernel import load_known_findings, match_known
-                if not hasattr(self, '_kf'):
-                    self._kf = load_known_findings()
-                rest = []
-                for v in self.pending:
-                    if match_known(v.to_json(), self._kf):
-                        self.stats.inc('foreign_known_finding_ignored.%s' % v.prop)
-                    else:
-                        rest.append(v)
-                self.pending = rest
-                if not rest:
-                    return
             v = own[0] if own else self.pending[0]
             self.pending = []
             raise v
